@@ -124,6 +124,12 @@ func c02MakeCompanion() {
 }
 
 func c02AllPaths(r *core.Run, pk, msg, sig []byte, v c02Variant) (acc, total int, detail string) {
+	// one precomputed key for the whole tour, as a verifier that keeps expanded keys of
+	// known signers has: it is used under every preset, singly and in batches, several times
+	var ek *ed25519.ExpandedPublicKey
+	if pan, _ := Guard(func() { ek, _ = ed25519.NewExpandedPublicKey(pk) }); pan {
+		ek = nil
+	}
 	for i, p := range c02presets {
 		o := &ed25519.Options{Hash: v.hash(), Context: v.ctx, Verify: p}
 		var ok bool
@@ -168,6 +174,40 @@ func c02AllPaths(r *core.Run, pk, msg, sig []byte, v c02Variant) (acc, total int
 				} else if detail == "" {
 					detail = []string{"batch with a valid neighbour/", "batch with a valid and a malformed neighbour/"}[k] + c02presetNames[i]
 				}
+			}
+		}
+		// the precomputed key: singly (twice: the key object must not be changed by use) and in a batch
+		for k := 0; k < 2; k++ {
+			eok := false
+			if ek != nil {
+				if pan, _ := Guard(func() { eok = ed25519.VerifyExpandedWithOptions(ek, msg, sig, o) }); pan {
+					eok = false
+				}
+			}
+			r.Count(c02verifies)
+			total++
+			if eok {
+				acc++
+			} else if detail == "" {
+				detail = []string{"single with a precomputed key/", "single with the same precomputed key again/"}[k] + c02presetNames[i]
+			}
+		}
+		{
+			eb := ed25519.NewBatchVerifier()
+			if ek != nil {
+				eb.AddExpandedWithOptions(ek, msg, sig, o)
+				eb.AddWithOptions(pk, msg, sig, o)
+			} else {
+				eb.AddWithOptions(pk, msg, sig, o)
+				eb.AddWithOptions(pk, msg, sig, o)
+			}
+			_, eres := eb.Verify(NewDetReader(uint64(i) + 41))
+			r.Count(c02batches)
+			total++
+			if len(eres) == 2 && eres[0] && eres[1] {
+				acc++
+			} else if detail == "" {
+				detail = "batch with a precomputed key/" + c02presetNames[i]
 			}
 		}
 		if !p.CofactorlessVerify {
